@@ -140,10 +140,10 @@ def define():
     for elem in ("T12", "Q16", "D24D", "A32", "A64", "L160D"):
         for (ln, idx) in ((3, 0), (3, 1), (2, 2), (3, 3)):
             ins("Raw", False, "none", "heap", "heap", elem, L=3, cap=4, ln=ln, idx=idx, tier="rot8")
-            ins("Wrapper", False, "none", "stack", "heap", elem, L=3, cap=4, ln=ln, idx=idx, tier="rot8")
+            ins("Wrapper", False, "none", "stack" if ELEMS[elem][1] <= 8 else "reloc", "heap", elem, L=3, cap=4, ln=ln, idx=idx, tier="rot8")
         for (ln, idx) in ((3, 0), (3, 2)):
             rem("Remove", "Drop", "none", "heap", "heap", elem, L=3, cap=4, ln=ln, idx=idx, tier="rot8")
-            rem("SwapRemove", "PushY", "none", "stack", "heap", elem, L=3, cap=4, ln=ln, idx=idx, tier="rot8")
+            rem("SwapRemove", "PushY", "none", "stack" if ELEMS[elem][1] <= 8 else "reloc", "heap", elem, L=3, cap=4, ln=ln, idx=idx, tier="rot8")
     # the 128-byte switch in copy_bytes: 1-byte elements, count = 126..129
     for ln in (127, 128, 129, 130):
         for src in ("Raw", "Wrapper"):
